@@ -535,33 +535,71 @@ def module_view(src):
     return dict(compiles=True, skeleton=skeleton, docs=docs, warnings=len(wl))
 
 
-_BASE = None
+_BCC = None
 
 
-def baseline():
-    """the carrier API with a harmless marker comment at every origin: skeleton of every emitted module and the
-    docstring owners that carry each origin's comment (sites are discovered, not hard-coded)."""
-    global _BASE
-    if _BASE is None:
-        with gen.scratch() as work:
-            res = gen.generate(build_request({o: MARK[o] for o in ORIGINS}, work))
-        if res.error:
-            raise RuntimeError('baseline generation failed: ' + res.error[:1000])
-        files = {}
-        for f in res.file:
-            if f.name.endswith('.py'):
-                v = module_view(f.content)
-                if not v['compiles']:
-                    raise RuntimeError(f'baseline module {f.name} does not compile: {v["error"]}')
-                sites = {o: sorted(q for q, (nt, val) in v['docs'].items() if MARK[o] in val) for o in ORIGINS}
-                files[f.name] = dict(skeleton=v['skeleton'], sites=sites)
-        _BASE = files
-    return _BASE
+def enable_template_cache():
+    """Every Generator builds a fresh jinja2.Environment and re-compiles all templates (about 85% of a generation).
+    Inside a worker the compiled templates are kept in a jinja2.BytecodeCache (a supported jinja2 feature; entries
+    are validated against the checksum of the template source).  compute_baseline checks that the emitted files
+    are byte-identical with and without it."""
+    global _BCC
+    import jinja2
+    if _BCC is not None:
+        return
+
+    class MemCache(jinja2.BytecodeCache):
+        def __init__(self):
+            self.store = {}
+
+        def load_bytecode(self, bucket):
+            b = self.store.get(bucket.key)
+            if b is not None:
+                bucket.bytecode_from_string(b)
+
+        def dump_bytecode(self, bucket):
+            self.store[bucket.key] = bucket.bytecode_to_string()
+
+    _BCC = MemCache()
+    base = jinja2.Environment
+
+    class CachedEnvironment(base):
+        def __init__(self, *a, **kw):
+            kw.setdefault('bytecode_cache', _BCC)
+            super().__init__(*a, **kw)
+
+    jinja2.Environment = CachedEnvironment
 
 
-def _embed_job(job):
+def compute_baseline(_=None):
+    """the carrier API with a harmless marker comment at every origin: view of every emitted module and the docstring
+    owners that carry each origin's comment (sites are discovered, not hard-coded)."""
     gen.ensure_env()
-    base = baseline()
+    with gen.scratch() as work:
+        req = build_request({o: MARK[o] for o in ORIGINS}, work)
+        res = gen.generate(req)
+        enable_template_cache()
+        for _i in range(2):                     # fills the cache, then uses it
+            again = gen.generate(req)
+            if [(f.name, f.content) for f in again.file] != [(f.name, f.content) for f in res.file] or again.error != res.error:
+                return dict(error='the template bytecode cache changes the output of the generator')
+    if res.error:
+        return dict(error='baseline generation failed: ' + res.error[:1000])
+    files = {}
+    for f in res.file:
+        if f.name.endswith('.py'):
+            v = module_view(f.content)
+            if not v['compiles']:
+                return dict(error=f'baseline module {f.name} does not compile: {v["error"]}')
+            sites = {o: sorted(q for q, (nt, val) in v['docs'].items() if MARK[o] in val) for o in ORIGINS}
+            files[f.name] = dict(sha=hashlib.sha1(f.content.encode()).hexdigest(), view=v, skeleton=v['skeleton'], sites=sites)
+    return dict(files=files)
+
+
+def _embed_job(args):
+    base, job = args
+    gen.ensure_env()
+    enable_template_cache()
     traces, descs, nt = [], [], []
     nwarn = 0
     for toks, text, origin in job:
@@ -579,6 +617,8 @@ def _embed_job(job):
             rel = name[len(PKGDIR):] if name.startswith(PKGDIR) else name
             if err or name not in out:
                 v = dict(compiles=False, error='generation failed: ' + err[:300] if err else 'module not emitted', warnings=0)
+            elif hashlib.sha1(out[name].encode()).hexdigest() == b['sha']:
+                v = b['view']                      # byte-identical to the baseline module: same view
             else:
                 v = module_view(out[name])
             nwarn += v['warnings']
@@ -616,11 +656,15 @@ def part_embed(chk, quick, rnd, pool):
         raise core.MachineryError(f'origins of the specification {origins} differ from the binding {ORIGINS}')
     units = [(c['toks'], c['text'], o) for c in docs for o in origins]
     rnd.shuffle(units)                              # balance converter-path (slow) cases over the jobs
-    k = max(1, min(40, len(units) // (NPROC * 2)))
+    k = max(1, min(60, -(-len(units) // NPROC)))
     jobs = [units[i:i + k] for i in range(0, len(units), k)]
+    base = pool.submit(compute_baseline).result()
+    if 'error' in base:
+        raise core.MachineryError(base['error'])
+    base = base['files']
     agg = Agg(chk, 'embed')
     nwarn = 0
-    for res in pool.map(_embed_job, jobs):
+    for res in pool.map(_embed_job, [(base, j) for j in jobs]):
         agg.add(res)
         chk.nontrivial.update(res['nontrivial'])
         nwarn += res['syntax_warnings']
